@@ -65,6 +65,9 @@ pub use filter::{Bloom, BloomDataProvider, BloomProvider, Config as BloomConfig,
 /// tools to interact with pearl structures
 pub mod tools;
 
+#[cfg(feature = "pearl_verif")]
+pub mod verif;
+
 pub use blob::Entry;
 pub use error::{Error, Kind as ErrorKind};
 pub use record::Meta;
